@@ -65,6 +65,10 @@ func describe(v interface{}, root interface{}) interface{} {
 		return map[string]interface{}{"k": "num", "t": rv.Kind().String(), "v": fmt.Sprintf("%d", v)}
 	case reflect.Float32, reflect.Float64:
 		return map[string]interface{}{"k": "num", "t": rv.Kind().String(), "v": strconv.FormatFloat(rv.Float(), 'f', -1, 64)}
+	case reflect.String:
+		return describe(rv.String(), root) // a named string type
+	case reflect.Bool:
+		return map[string]interface{}{"k": "bool", "v": rv.Bool()}
 	case reflect.Ptr:
 		if rv.Type().Elem().Name() == "T" && !rv.IsNil() {
 			// a T of another fixture package: same shape
